@@ -91,7 +91,10 @@ def _agg_add(agg, seed, res, keep_samples):
     agg["executions"] += res["executions"]
     if res["nontrivial"]:
         agg["nontrivial"] += 1
-        agg["pairs"].add(res["wdigest"] + ":" + res["edigest"])
+        if res.get("distinct_keys") is not None:
+            agg["pairs"].update(res["distinct_keys"])
+        else:
+            agg["pairs"].add(res["wdigest"] + ":" + res["edigest"])
     agg["interleavings"].add(res["edigest"])
     agg["workloads"].add(res["wdigest"])
     _merge_counts(agg["faults"], res["faults"])
@@ -515,6 +518,18 @@ def main(argv=None):
                       f"did not reproduce in-process")
                 return 2
             vals, labels, viol, res = r
+        if viol.get("extra") is not None:
+            # enumeration engines: the replay executes only the named fault
+            # point, so digest and message must come from such an execution
+            t1 = Tape(replay=vals, strict=False)
+            r1 = engine.run_one(t1, only=viol["extra"])
+            same = [x for x in r1["violations"] if x["signature"] == sig]
+            if not same:
+                print(f"HARNESS-ERROR violation {sig}: single fault point "
+                      f"{viol['extra']} does not reproduce it")
+                return 2
+            vals, labels = t1.recorded()
+            viol, res = same[0], r1
         path = write_replay(pid, v["run_seed"], vals, labels, viol, res, note)
         ok, out = _replay_in_fresh_process(pid, path)
         if not ok:
